@@ -1,7 +1,7 @@
 """C19 — a tree can be snapshotted and restored at any metaepoch boundary (partial: see MANIFEST note)."""
 from .. import snapshot
 
-FRONT_ENDS = ["driver"]
+FRONT_ENDS = ["driver", "persist"]
 EXPLANATION = "invariants inductive from any state (resumed machine keeps them); dump/load round trip, RNG and live-tree untouched, resumed runs checked on the real package"
 ASSUMPTIONS = ["dill's behaviour on the Python object graph (identity on the abstract state, engine internals restored) is not expressible in the model: decided by the harness only"]
 
